@@ -244,7 +244,8 @@ theorem MetaSafe.taskAct {r r' : Realm} (hm : MetaSafe r) (h : TaskAct r r') : M
 theorem MetaSafe.runTask {r : Realm} (hm : MetaSafe r) (t : Task) (ht : MTaskOk t) : MetaSafe (r.runTask t) :=
   hm.taskAct (runTask_act hm t ht)
 
-/-- an external input that does not use the meta session's key as a client key -/
+/-- an external input that does not use the meta session's key as a client key.  (No longer a
+    hypothesis of anything below: `join metaKey` and `drop metaKey` are no-ops of the model.) -/
 def OpK : Op → Prop
   | .join k .. => k ≠ metaKey
   | .drop k => k ≠ metaKey
@@ -257,10 +258,14 @@ theorem MetaSafe.map_clients {r : Realm} (hm : MetaSafe r) (f : Session → Sess
   obtain ⟨c0, h0, rfl⟩ := List.mem_map.mp hc
   rw [hf]; exact hm.noClient c0 h0
 
-theorem MetaSafe.stepOp {r : Realm} (hm : MetaSafe r) (op : Op) (hop : OpK op) : MetaSafe (r.stepOp op) := by
+theorem MetaSafe.stepOp {r : Realm} (hm : MetaSafe r) (op : Op) : MetaSafe (r.stepOp op) := by
   cases op with
   | join k isLocal details roles cap =>
     rw [stepOp_join]
+    split
+    · exact hm
+    rename_i hg
+    have hop : k ≠ metaKey := (join_guard_false hg).1
     refine ⟨?_, hm.ending, ?_, hm.deferred, hm.retries, hm.mkey, hm.metaPPT⟩
     · intro c hc
       rcases List.mem_append.mp hc with hc | hc
@@ -275,10 +280,11 @@ theorem MetaSafe.stepOp {r : Realm} (hm : MetaSafe r) (op : Op) (hop : OpK op) :
     exact hm.taskAct (runTask_act hm (.inMsg k m) trivial)
   | buffer k => rw [stepOp_buffer]; exact hm.map_clients _ (fun c => by split <;> rfl) r.ghosts
   | drop k =>
-    rw [stepOp_drop]
-    split
-    · exact hm
-    · refine ⟨hm.noClient, ?_, ?_, hm.deferred, hm.retries, hm.mkey, hm.metaPPT⟩
+    rcases stepOp_drop_cases r k with e | ⟨⟨c, hc, hk⟩, _, e⟩
+    · rw [e]; exact hm
+    · rw [e]
+      have hop : k ≠ metaKey := hk ▸ hm.noClient c hc
+      refine ⟨hm.noClient, ?_, ?_, hm.deferred, hm.retries, hm.mkey, hm.metaPPT⟩
       · intro hin
         rcases List.mem_append.mp hin with hin | hin
         · exact hm.ending hin
@@ -372,13 +378,13 @@ theorem MetaSafe.flush {r : Realm} (hm : MetaSafe r) : MetaSafe r.flush.2 := by
   extract_lets reading out seenClosed keep keepEmpty
   exact ⟨hm.noClient, hm.ending, hm.tasks, hm.deferred, hm.retries, hm.mkey, hm.metaPPT⟩
 
-theorem MetaSafe.step {r : Realm} (hm : MetaSafe r) (op : Op) (hop : OpK op) : MetaSafe (r.step op).2 := by
+theorem MetaSafe.step {r : Realm} (hm : MetaSafe r) (op : Op) : MetaSafe (r.step op).2 := by
   by_cases ht : ∃ ms, op = .tick ms
   · obtain ⟨ms, rfl⟩ := ht
     rw [step_tick]
     exact (MetaSafe.advance _ _ hm).flush
   · rw [step_of_not_tick r op (fun ms e => ht ⟨ms, e⟩)]
-    exact (MetaSafe.drain _ (hm.stepOp op hop)).flush
+    exact (MetaSafe.drain _ (hm.stepOp op)).flush
 
 /-! ### the initial realm -/
 
@@ -411,7 +417,14 @@ theorem create_metaSafe {cfg : Config} {r : Realm} (h : Realm.create cfg = some 
       · rw [f3]
         exact (by decide : ({} : Realm).metaS.hasFeature RolePublisher FeaturePayloadPassthruMode = true)
 
-/-- realm states reachable by inputs that never use the meta session's key as a client key -/
+/-- every reachable realm is `MetaSafe`: no hypothesis on the keys the inputs use -/
+theorem _root_.Nexus.L2.Realm.Reachable.metaSafe {cfg : Config} {r : Realm} (h : Realm.Reachable cfg r) : MetaSafe r := by
+  induction h with
+  | init h => exact (create_metaSafe h).1
+  | step op _ ih => exact ih.step op
+
+/-- realm states reachable by inputs that never use the meta session's key as a client key
+    (kept for compatibility: every `Realm.Reachable` state is `MetaSafe`, see above) -/
 inductive ReachableK (cfg : Config) : Realm → Prop
   | init {r : Realm} : Realm.create cfg = some r → ReachableK cfg r
   | step {r : Realm} (op : Op) : ReachableK cfg r → OpK op → ReachableK cfg (r.step op).2
@@ -421,12 +434,10 @@ theorem ReachableK.reachable {cfg : Config} {r : Realm} (h : ReachableK cfg r) :
   | init h => exact .init h
   | step op _ _ ih => exact .step op ih
 
-theorem ReachableK.metaSafe {cfg : Config} {r : Realm} (h : ReachableK cfg r) : MetaSafe r := by
-  induction h with
-  | init h => exact (create_metaSafe h).1
-  | step op _ hop ih => exact ih.step op hop
+theorem ReachableK.metaSafe {cfg : Config} {r : Realm} (h : ReachableK cfg r) : MetaSafe r :=
+  h.reachable.metaSafe
 
-/-! ### why the hypothesis on keys: a `drop` of the meta session's key -/
+/-! ### `flush` touches the queues and `closedPeers` only -/
 
 theorem flush_ctl (r : Realm) :
     r.flush.2.ending = r.ending ∧ r.flush.2.tasks = r.tasks ∧ r.flush.2.clients = r.clients ∧
@@ -436,41 +447,5 @@ theorem flush_ctl (r : Realm) :
   unfold Realm.flush
   extract_lets reading out seenClosed keep keepEmpty
   exact ⟨rfl, rfl, rfl, rfl, rfl, rfl, rfl, rfl, rfl, rfl, rfl⟩
-
-/-- `drop k` for a key that names no attached client (the model's `Op` allows it, no transport can do it):
-    `k` is put into `ending` and stays there -/
-theorem drop_nonclient_step (r : Realm) (k : SessKey) (ht : r.tasks = []) (hr : r.retries = [])
-    (hc : ∀ c ∈ r.clients, c.key ≠ k) (he : k ∉ r.ending) :
-    drain taskFuel (r.stepOp (.drop k)) = { r with tasks := [], ending := r.ending ++ [k] } := by
-  rw [stepOp_drop]
-  have : r.ending.contains k = false := by
-    cases h : r.ending.contains k
-    · rfl
-    · exact absurd (List.contains_iff_mem.mp h) he
-  rw [this]
-  simp only [Bool.false_eq_true, if_false]
-  show drain (99999 + 1) _ = _
-  rw [drain_succ_cons _ _ (.leave k .lost) [] (by simp [ht])]
-  rw [runTask_leave]
-  have hb : ({ r with tasks := [], ending := r.ending ++ [k] } : Realm).busy k = false := by
-    unfold busy; simp [hr]
-  rw [show (({ ({ r with tasks := r.tasks ++ [Task.leave k LeaveMode.lost], ending := r.ending ++ [k] } : Realm) with tasks := [] } : Realm)) =
-    ({ r with tasks := [], ending := r.ending ++ [k] } : Realm) from rfl]
-  rw [hb]
-  simp only [Bool.false_eq_true, if_false]
-  rw [leave_none]
-  · show drain (99998 + 1) _ = _
-    rw [drain_succ_nil _ _ rfl]
-  · apply List.find?_eq_none.mpr
-    intro c hcm
-    have := hc c hcm
-    simpa using this
-
-theorem drop_nonclient (r : Realm) (k : SessKey) (ht : r.tasks = []) (hr : r.retries = [])
-    (hc : ∀ c ∈ r.clients, c.key ≠ k) (he : k ∉ r.ending) :
-    (r.step (.drop k)).2.ending = r.ending ++ [k] ∧ (r.step (.drop k)).2.clients = r.clients := by
-  rw [step_of_not_tick r _ (fun ms e => by cases e), (flush_ctl _).1, (flush_ctl _).2.2.1,
-    drop_nonclient_step r k ht hr hc he]
-  exact ⟨rfl, rfl⟩
 
 end Nexus.L2.WpC
